@@ -265,3 +265,32 @@ Lemma tuple5_eq {A B C D E : Type} (a a' : A) (b b' : B) (c c' : C) (d d' : D) (
 Proof.
   intro H. apply pair_eq in H. destruct H as [H H5]. apply tuple4_eq in H. tauto.
 Qed.
+
+(** * Roles of the two tolerances in the calls to scipy's root finders (facts extracted from
+      the source by tools/gen_hydro_match.py).  scipy: a bracketing root_scalar stops when
+      the bracket is shorter than  xtol + rtol*|x|  -- xtol is the ABSOLUTE, rtol the RELATIVE
+      tolerance.  The classes carry self.atol (absolute) and self.rtol (relative). *)
+Require Import List.
+Inductive tolsrc : Set := TAtol | TRtol | TNone | TOther.
+Inductive solverkind : Set := RootScalar | RootHybr.
+(** (source line, solver, what is passed as xtol, what is passed as rtol) *)
+Record tolfact : Set := mk_tolfact { tf_line : nat; tf_kind : solverkind;
+                                     tf_xtol : tolsrc; tf_rtol : tolsrc }.
+Definition tolsrc_val (s : tolsrc) (rt at_ : R) : R :=
+  match s with TAtol => at_ | TRtol => rt | _ => 0 end.
+(** accuracy requested from the root finder at a root x *)
+Definition requested_accuracy (f : tolfact) (rt at_ x : R) : R :=
+  tolsrc_val (tf_xtol f) rt at_ + tolsrc_val (tf_rtol f) rt at_ * Rabs x.
+Definition roles_ok (f : tolfact) : bool :=
+  match tf_kind f, tf_xtol f, tf_rtol f with
+  | RootScalar, TAtol, TRtol => true
+  | RootHybr, TAtol, TNone => true
+  | _, _, _ => false
+  end.
+Lemma roles_ok_meaning f rt at_ x :
+  roles_ok f = true -> tf_kind f = RootScalar ->
+  requested_accuracy f rt at_ x = at_ + rt * Rabs x.
+Proof.
+  destruct f as [l k a b]. unfold roles_ok, requested_accuracy. cbn.
+  intros H K. subst k. destruct a; destruct b; try discriminate. reflexivity.
+Qed.
